@@ -15,7 +15,7 @@ def payload(writer, seq, size, rng):
 
 
 def main():
-    job = json.load(sys.stdin)
+    job = json.loads(sys.stdin.readline())
     os.environ["CLEMATIS_LOG_DIR"] = job["log_dir"]
     if job.get("ci"):
         os.environ["CI"] = "true"
@@ -27,6 +27,21 @@ def main():
         os.environ["CI"] = "true"
     from clematis.io.log import append_jsonl
 
+    if job.get("serve"):
+        # command mode: one JSON command per stdin line ({"append": record} | {"quit": 1}); one reply line per command.
+        # The harness drives several such writers step by step, so every append returns before the next one is issued.
+        print(json.dumps({"ready": 1}), flush=True)
+        for line in sys.stdin:
+            cmd = json.loads(line)
+            if "append" in cmd:
+                try:
+                    append_jsonl(job["stream"], cmd["append"])
+                    print(json.dumps({"ok": 1}), flush=True)
+                except Exception as ex:
+                    print(json.dumps({"exc": f"{type(ex).__name__}: {ex}"[:200]}), flush=True)
+            else:
+                break
+        return
     rng = random.Random(job["seed"])
     for i in range(job["n"]):
         append_jsonl(job["stream"], payload(job["writer"], i, rng.choice(job["sizes"]), rng))
